@@ -748,6 +748,10 @@ def model_quantize(model,
     layer_config = layer["config"]
     # Name of the quantized class this layer is converted to, if any.
     q_name = None
+    # The model is rebuilt from its inputs. The recorded build shapes are
+    # stale when the caller resized a layer (AutoQKeras filter tuning) and
+    # would pre-build the following layers with the old input shape.
+    layer.pop("build_config", None)
 
     # Dense becomes QDense, Conv1D becomes QConv1D etc
     # Activation converts activation functions.
